@@ -260,6 +260,8 @@ def strategy():
         'kind': st.just('http'), 'cls': st.sampled_from(names), 'how': st.sampled_from(['raise', 'return']),
         'detail': opt(text), 'message': opt(text), 'error_type': opt(text), 'code': opt(st.sampled_from([400, 418, 499, 500, 599, 404])),
         'accept': st.sampled_from(ACCEPTS), 'debug': st.booleans(), 'method': st.sampled_from(['GET', 'GET', 'POST']),
+        'preset': st.sampled_from([None, None, None, 'text/html', 'application/json', 'application/xml', 'text/plain', 'image/png']),
+        'reuse': st.sampled_from([None, None, 'text/html', 'application/json', 'application/xml']),
     })
     nf = st.fixed_dictionaries({
         'kind': st.just('notfound'), 'path': st.lists(text.map(lambda s: s.replace('/', '|').replace('\n', ' ').replace('\r', ' ').replace('\x00', '')),
@@ -292,7 +294,12 @@ def make_app(case, cell):
                 kw[k] = c[k]
         if c['cls'] == 'HTTPException' and 'code' not in kw:
             kw['code'] = 500
-        e = cls(c.get('detail'), **kw) if c['cls'] != 'MethodNotAllowed' else cls(None, c.get('detail'), **kw)
+        if c.get('preset'):
+            kw['mimetype'] = c['preset']          # documented constructor argument
+        if cell.get('reuse_obj') is not None:
+            e = cell['reuse_obj']                 # the very instance that was rendered for the previous request
+        else:
+            e = cls(c.get('detail'), **kw) if c['cls'] != 'MethodNotAllowed' else cls(None, c.get('detail'), **kw)
         cell['error'] = e
         if c['how'] == 'raise':
             raise e
@@ -323,7 +330,16 @@ def body(case, ctx):
     kind = case['kind']
     ctx.event('kind-' + kind + ('-debug' if case['debug'] else ''))
     if kind == 'http':
+        cell['reuse_obj'] = None
+        if case.get('reuse') and not case['cls'].startswith('Contextual'):
+            # an application-level error object (e.g. a module constant) raised for two requests in a row: first for a client
+            # that gets another format, then for this one
+            call(app, '/http', case['method'], headers={'Accept': case['reuse']})
+            cell['reuse_obj'] = cell.get('error')
+            ctx.requests += 1
+            ctx.event('reused-error-instance')
         r = call(app, '/http', case['method'], headers=hdrs)
+        cell['reuse_obj'] = None
         ctx.requests += 1
         what = '%s %s %s(detail=%r, message=%r, error_type=%r, code=%r)' % (case['method'], case['how'], case['cls'], case.get('detail'),
                                                                            case.get('message'), case.get('error_type'), case.get('code'))
@@ -394,7 +410,7 @@ def run_matrix(ctx):
             for how in ('raise', 'return'):
                 for accept in ('text/html', 'application/json', 'application/xml', 'text/plain', 'image/png'):
                     case = {'kind': 'http', 'cls': cn, 'how': how, 'detail': '<zq9m1> & "x"', 'message': None, 'error_type': None,
-                            'code': None, 'accept': accept, 'debug': debug, 'method': 'GET'}
+                            'code': None, 'accept': accept, 'debug': debug, 'method': 'GET', 'preset': None, 'reuse': None}
                     ctx.case(case)
                     try:
                         body(case, ctx)
